@@ -16,6 +16,8 @@ STUB_SOURCES = {
     "xdsl.traits": "xdsl_traits.py",
     "xdsl.dialects.utils": "xdsl_dialects_utils.py",
     "xdsl.dialects.func": "xdsl_dialects_func.py",
+    "xdsl.dialects.linalg": "xdsl_dialects_linalg.py",
+    "xdsl.builder": "xdsl_builder.py",
     "xdsl.utils.hints": "xdsl_utils_hints.py",
     "xdsl.pattern_rewriter": "xdsl_pattern_rewriter.py",
     "xdsl.rewriter": "xdsl_pattern_rewriter.py",
